@@ -4,8 +4,10 @@
    (the way back).  Spec: Spec/SdlRoundtripSpec.v (block_string_value,
    printable, conforms, ast_of_schema, schema_okb).  Proofs:
    Proofs/SdlPrintProofs.v.  Statements only. *)
+From PyGql Require Import Lang.PrinterModel Spec.PrinterSpec Proofs.PrinterSdlRoundtrip.
 From PyGql Require Import Run.Driver Spec.SdlSpec Schema.SdlPrint Schema.SdlIntro Spec.SdlRoundtripSpec
      Proofs.SdlPrintProofs Proofs.SdlTextProofs Lang.Parser.
+From PyGql Require Import Proofs.SdlTextSchemaProofs Proofs.SdlDocRoundtripProofs Proofs.SdlTextRoundtripProofs.
 From Coq Require Import Lia.
 
 (* ---- full-strength statements (kept visible) -------------------------- *)
@@ -145,6 +147,87 @@ Theorem C12_text_roundtrip_type_references : forall fl t,
 Proof. exact type_reference_text_roundtrip. Qed.
 Print Assumptions C12_text_roundtrip_type_references.
 
+(* ---- phase 3: composition with the AST printer round trip of C03 -------- *)
+
+(* ASTSchemaPrinter lays the document out itself (it does not subclass
+   ASTPrinter; only values and applied directives go through print_ast).  For
+   schemas without descriptions, defaults and applied custom directives
+   ([plain_schema], Proofs/SdlTextSchemaProofs.v) the two layouts coincide:
+   the text is what the AST printer model of C03 writes for [ast_of_schema]. *)
+Theorem C12_text_is_ast_print_partial : forall o intro spec sc,
+  plain_schema sc -> po_introspection o = false ->
+  exists d, ast_of_schema sc = Ok d
+            /\ print_schema intro spec o sc = Ok (print_ast (po_indent o) true d).
+Proof. exact print_is_print_ast. Qed.
+Print Assumptions C12_text_is_ast_print_partial.
+
+(* ... hence (C03_sdl_roundtrip) the parser model of C01 reads the printed
+   text back as exactly that document *)
+Theorem C12_text_parse_partial : forall intro spec o fl sc text,
+  plain_schema sc -> valid_locations sc -> po_introspection o = false ->
+  no_location fl = true -> allow_type_system fl = true -> all_ws (po_indent o) ->
+  print_schema intro spec o sc = Ok text ->
+  parse_document fl text = Ok (doc_of sc) /\ ast_of_schema sc = Ok (doc_of sc).
+Proof. exact text_parses_to_ast. Qed.
+Print Assumptions C12_text_parse_partial.
+
+(* C12_members_roundtrip at the document level, for every SDL-expressible
+   schema (descriptions, defaults, directives included): if the document of
+   the schema obeys the type-system rules of C11 and lies outside the two open
+   findings of C11 ([defaults_stable]), and every default prints to a literal
+   that coerces back ([default_rt]; C12_default_roundtrip_partial gives that
+   for conforming values, it fails exactly for the open finding
+   custom-scalar-numeric-string-default), then the builder returns the
+   declared schema and that is equivalent to the schema printed.  What
+   C12_members_roundtrip_full still lacks is therefore only:
+   schema_okb sc -> sdl_rules_ok (document of sc). *)
+Theorem C12_members_roundtrip_document : forall sc d,
+  schema_okb sc = true -> ast_of_schema sc = Ok d ->
+  (forall a, In a (schema_ivalues sc) -> default_rt (env_of_schema [] sc) (declared_env d) a) ->
+  sdl_rules_ok d -> defaults_stable d ->
+  build_model (BOpts true []) d = Ok (declared d)
+  /\ roundtrip_equiv (declared d) sc = true
+  /\ members_roundtrip sc = true.
+Proof. exact members_roundtrip_doc. Qed.
+Print Assumptions C12_members_roundtrip_document.
+
+(* C12_roundtrip for plain schemas, through the parser model: parse (print s)
+   builds a schema equivalent to s ... *)
+Theorem C12_text_roundtrip_partial : forall intro spec o fl sc text,
+  plain_schema sc -> valid_locations sc -> schema_okb sc = true -> sdl_rules_ok (doc_of sc) ->
+  po_introspection o = false ->
+  no_location fl = true -> allow_type_system fl = true -> all_ws (po_indent o) ->
+  print_schema intro spec o sc = Ok text ->
+  exists d sc', parse_document fl text = Ok d
+                /\ build_model (BOpts true []) d = Ok sc'
+                /\ roundtrip_equiv sc' sc = true
+                /\ declares_again sc sc'.
+Proof. exact text_roundtrip_plain. Qed.
+Print Assumptions C12_text_roundtrip_partial.
+
+(* ... and printing the rebuilt schema gives the same text (C12_roundtrip_full
+   restricted to plain schemas, with the equivalence added) *)
+Theorem C12_fixpoint_partial : forall intro spec o fl sc text,
+  plain_schema sc -> valid_locations sc -> schema_okb sc = true -> sdl_rules_ok (doc_of sc) ->
+  po_introspection o = false ->
+  no_location fl = true -> allow_type_system fl = true -> all_ws (po_indent o) ->
+  print_schema intro spec o sc = Ok text ->
+  exists d sc', parse_document fl text = Ok d
+                /\ build_model (BOpts true []) d = Ok sc'
+                /\ roundtrip_equiv sc' sc = true
+                /\ print_schema intro spec o sc' = Ok text.
+Proof. exact text_roundtrip_fixpoint_plain. Qed.
+Print Assumptions C12_fixpoint_partial.
+
+(* any schema that declares [sc] again (sorted, equal up to applied directives
+   named like specified ones) prints like [sc] *)
+Theorem C12_fixpoint_declares_again : forall intro spec o sc sc',
+  plain_schema sc -> has_dup (map tdef_name (s_types sc)) = false -> declares_again sc sc' ->
+  po_introspection o = false ->
+  print_schema intro spec o sc' = print_schema intro spec o sc.
+Proof. exact fixpoint_plain. Qed.
+Print Assumptions C12_fixpoint_declares_again.
+
 (* the printer is a function of (schema, options): the same arguments give the
    same text at any two positions of any two call histories *)
 Theorem C12_pure : forall intro spec (h1 h2 : list (popts * schema)) o sc i j,
@@ -221,3 +304,73 @@ Example C12_members_instance :
                 [] (Some (s "Query")) None None [] in
   schema_okb sc = true /\ members_roundtrip sc = true.
 Proof. split; vm_compute; reflexivity. Qed.
+
+(* the hypotheses of C12_text_roundtrip_partial / C12_fixpoint_partial hold of a
+   schema with an object, an interface, arguments, a deprecated field and a
+   deprecated enum value, a union, an input type and a directive definition;
+   the conclusion is also checked by computation (text, document, rebuilt
+   schema, second print) *)
+Definition plain_example : schema :=
+  Sch [TObject (s "Query") None [s "Node"]
+         [SF (s "id") (s "id") [] (RNonNull (RNamed (s "ID"))) None None [];
+          SF (s "e") (s "e") [SIV (s "x") (s "x") (RList (RNonNull (RNamed (s "In")))) None None []]
+             (RNamed (s "E")) None (Some (s "old")) []] [];
+       TInterface (s "Node") None [SF (s "id") (s "id") [] (RNonNull (RNamed (s "ID"))) None None []] [];
+       TEnum (s "E") None [SEV (s "A") (PStr (s "A")) None (Some default_deprecation) [];
+                           SEV (s "B") (PStr (s "B")) None None []] [];
+       TUnion (s "U") None [s "Query"] [];
+       TInput (s "In") None [SIV (s "n") (s "n") (RNamed (s "Int")) None None []] [];
+       TScalar (s "Date") None []]
+      [DD (s "tag") None [s "FIELD"; s "OBJECT"] [SIV (s "n") (s "n") (RNamed (s "Int")) None None []]]
+      (Some (s "Query")) None None [].
+
+Ltac vname_tac := eexists _, _; split; [reflexivity|]; split; [reflexivity|repeat constructor].
+
+Example C12_text_roundtrip_instance :
+  plain_schema plain_example /\ valid_locations plain_example
+  /\ schema_okb plain_example = true /\ sdl_rules_ok (doc_of plain_example).
+Proof.
+  split; [|split; [|split]].
+  - unfold plain_schema, plain_example. cbn [s_types s_ddefs].
+    repeat match goal with
+           | |- _ /\ _ => split
+           | |- Forall _ _ => constructor
+           | |- PrinterRoundtrip.valid_name _ => vname_tac
+           | |- _ = None => reflexivity
+           | |- nodirs _ => reflexivity
+           | |- _ <> _ => discriminate
+           | |- True => exact I
+           | |- wf_tref _ => cbn [wf_tref]
+           | |- plain_tdef _ => unfold plain_tdef; cbn [tdef_desc tdef_dirs tdef_name]
+           | |- plain_sf _ => unfold plain_sf; cbn [sf_desc sf_dirs sf_name sf_type sf_args]
+           | |- plain_siv _ => unfold plain_siv; cbn [siv_default siv_desc siv_dirs siv_name siv_type]
+           | |- plain_sev _ => unfold plain_sev; cbn [sev_desc sev_dirs sev_name]
+           | |- plain_ddef _ => unfold plain_ddef; cbn [dd_desc dd_name dd_args dd_locs]
+           | |- plain_roots _ => unfold plain_roots; cbn [s_dirs s_query s_mutation s_subscription]
+           | |- ~ _ => vm_compute; intuition discriminate
+           | |- exists q, Some ?x = Some q /\ _ => exists x; split; [reflexivity|]
+           | |- forall m, None = Some m -> _ => intros ? ?; discriminate
+           end.
+  - unfold valid_locations, plain_example. cbn [s_ddefs dd_locs]. repeat constructor; vm_compute; tauto.
+  - vm_compute; reflexivity.
+  - vm_compute; reflexivity.
+Qed.
+
+Example C12_fixpoint_instance :
+  let o := POpts (s "  ") true false CustomOff in
+  match print_schema introspection_types specified_ddefs o plain_example with
+  | Ok text =>
+      match parse_document (Flags true true false) text with
+      | Ok d => match build_model (BOpts true []) d with
+                | Ok sc' => roundtrip_equiv sc' plain_example
+                            && match print_schema introspection_types specified_ddefs o sc' with
+                               | Ok text' => str_eqb text' text
+                               | _ => false
+                               end
+                | _ => false
+                end
+      | _ => false
+      end
+  | _ => false
+  end = true.
+Proof. vm_compute; reflexivity. Qed.
